@@ -65,20 +65,20 @@ def gen_text():
     main = sorted(Tag.MAIN_CONTENT_STRING_TYPES, key=lambda c: (order.get(c.__name__, 999), c.__name__))
     t = HEADER + "import BSModel.Model.Text\nnamespace BS.Gen\nopen BS.Text\n"
     t += "/-- `Tag.MAIN_CONTENT_STRING_TYPES` (bs4/element.py) -/\n"
-    t += f"def mainContentStringTypes : List StrClass := [{', '.join(lean_class(c, extra) for c in main)}]\n"
-    for nm, cls in (("htmlStringContainers", HTMLTreeBuilder), ("baseStringContainers", TreeBuilder)):
+    t += f"def c13MainContentStringTypes : List StrClass := [{', '.join(lean_class(c, extra) for c in main)}]\n"
+    for nm, cls in (("c13HtmlStringContainers", HTMLTreeBuilder), ("c13BaseStringContainers", TreeBuilder)):
         d = cls.DEFAULT_STRING_CONTAINERS
         items = [f"({lean_str(k)}, {lean_class(v, extra)})" for k, v in d.items()]
         t += f"/-- `{cls.__name__}.DEFAULT_STRING_CONTAINERS`: {', '.join(f'{k} -> {v.__name__}' for k, v in d.items()) or 'empty'} -/\n"
         t += f"def {nm} : List (PStr × StrClass) := [{', '.join(items)}]\n"
     dflt = PageElement.default
     t += "/-- `PageElement.default` is the empty tuple (so `types=()` is indistinguishable from the default) -/\n"
-    t += f"def defaultIsEmptyTuple : Bool := {'true' if (isinstance(dflt, tuple) and len(dflt) == 0) else 'false'}\n"
+    t += f"def c13DefaultIsEmptyTuple : Bool := {'true' if (isinstance(dflt, tuple) and len(dflt) == 0) else 'false'}\n"
     live = live_string_classes()
     t += "/-- NavigableString and its subclasses defined in bs4.element, in definition order -/\n"
-    t += f"def liveStringClasses : List StrClass := [{', '.join(lean_class(c, extra) for c in live)}]\n"
+    t += f"def c13LiveStringClasses : List StrClass := [{', '.join(lean_class(c, extra) for c in live)}]\n"
     t += f"/-- their names: {', '.join(c.__name__ for c in live)} -/\n"
-    t += f"def knownStringClasses : List StrClass := [{', '.join(ctor(n) for n in KNOWN)}]\n"
+    t += f"def c13KnownStringClasses : List StrClass := [{', '.join(ctor(n) for n in KNOWN)}]\n"
     t += "end BS.Gen\n"
     yield "Text.lean", t
 
